@@ -136,6 +136,6 @@ int main(int argc, char **argv) {
     vector<Cfg> base; for (int opt = 0; opt < 3; opt++) for (int reg = 0; reg < 3; reg++) for (int sec = 0; sec < 3; sec++) for (int heap = 1; heap <= 2; heap++) { if (sec == 2 && reg == 0) continue; base.push_back({opt, reg, sec, 0, heap}); }
     vector<Cfg> small; for (int reg = 0; reg < 3; reg++) for (int heap = 1; heap <= 2; heap++) small.push_back({2, reg, 1, 0, heap});
     phase(3, 2, base, "all options, 3x3 grid"); phase(3, 3, small, "improve all, second transaction"); phase(4, 2, base, "all options, 3x3 grid");
-    if (T) { phase(3, 3, base, "all options"); vector<Cfg> ob; for (auto c : base) { c.obstacle = 1; if (c.opt != 1) ob.push_back(c); } phase(3, 2, ob, "with obstacle"); phase(4, 2, ob, "with obstacle"); phase(4, 3, base, "all options"); phase(5, 2, base, "all options, 3x3 grid"); }
+    if (T) { phase(3, 3, base, "all options"); vector<Cfg> ob; for (auto c : base) { c.obstacle = 1; if (c.opt != 1) ob.push_back(c); } phase(3, 2, ob, "with obstacle"); phase(4, 2, ob, "with obstacle"); phase(4, 3, base, "all options"); phase(5, 2, base, "all options, 3x3 grid"); phase(6, 2, base, "all options, 3x3 grid"); phase(5, 3, small, "improve all, second transaction, 4x4 grid"); }
     return ctx.finish();
 }
